@@ -127,13 +127,6 @@ Example C16_nonvacuous_table :
 Proof. vm_compute. reflexivity. Qed.
 
 (* the same table reached by a client history (hence server_ok, by C01_history), then a GC request *)
-Definition gc_tbl : bytes := [112; 47; 116; 97; 98; 108; 101; 115; 47; 116]%N.   (* "p/tables/t" *)
-Definition gc_history : list call :=
-  [ mkCall (BCreateTable [112%N] [116%N] [([102%N], Some (GMaxAge 0 0)); ([103%N], None)]) 0 [];
-    mkCall (BMutateRow gc_tbl [97%N] [SetCell [102%N] [113%N] 1000 [1%N]]) 0 [];
-    mkCall (BMutateRow gc_tbl [98%N] [SetCell [102%N] [113%N] 9000 [1%N]; SetCell [102%N] [113%N] 2000 [2%N];
-                                      SetCell [103%N] [113%N] 1000 [5%N]]) 0 [] ].
-
 Example C16_nonvacuous_history :
   let s := fst (run [] gc_history) in
   server_ok s
